@@ -497,3 +497,15 @@ Fixpoint no_pb (t : ktree) : bool :=
   | KFifo cs => forallb no_pb cs
   | KFilt _ tb eb => no_pb tb && no_pb eb
   end.
+
+(* [n] goroutines' worth of the same message [m] and nothing else, then a
+   query: the answer holds exactly as many errors as specified (none lost to
+   a concurrent append, none recorded twice) *)
+Definition load_answer (c : cfg) (k : kind) (m : msg) (n : nat) : list failure :=
+  match k with
+  | Req => expected_both c (repeat m n) []
+  | Res => expected_both c [] (repeat m n)
+  end.
+
+Definition c13_load_ok (c : cfg) (k : kind) (m : msg) (n cnt : nat) : bool :=
+  Nat.eqb cnt (length (load_answer c k m n)).
